@@ -620,6 +620,13 @@ func (m *Machine) intrinsic(s *State, f *Frame, x *ssa.Call, name string, callee
 		f.env[x] = v
 		s.pc = append(s.pc, c.Cmp("bvsge", sc(v), c.BV(0, 64)), c.Cmp("bvslt", sc(v), n))
 		return nil, true
+	case name == "google.golang.org/protobuf/proto.Equal":
+		m.stubs["proto.Equal as structural equality of the message values"]++
+		f.env[x] = Sc{m.deepEqual(s, args[0], args[1], 0)}
+		return nil, true
+	case name == "reflect.DeepEqual":
+		f.env[x] = Sc{m.deepEqual(s, args[0], args[1], 0)}
+		return nil, true
 	case strings.HasPrefix(name, "(*sync.Map)."):
 		if hf := m.hpkg.Func("zzSyncMap" + strings.TrimPrefix(name, "(*sync.Map).")); hf != nil {
 			m.stubs["sync.Map: association-list model in the harness runtime"]++
